@@ -143,6 +143,7 @@ type Exec struct {
 	loopsNoMeasure map[string]bool
 	lemmaStart     int
 	lastResult     Value
+	modelExtra     string
 }
 
 type ExecOpts struct {
